@@ -51,6 +51,16 @@ def body(ctx, shape):
     except Exception as e:  # noqa: BLE001
         ctx.fail("repack-raises", f"{type(e).__name__}@{exc_site(e)}")
     ctx.require(ctx.eq(b2, b), "reencode-differs")
+    # the message is the caller's and its lists are mutable: an encoding computed earlier must not
+    # be handed out again after a change (controls is a list on every message kind)
+    m.controls.append(ctx.L.controls.LDAPControl("1.2.3", False, None))
+    try:
+        b4 = m.pack(opts)
+        m4 = M.unpack_ldap_message(A.ASN1Reader(b4), opts)
+    except Exception as e:  # noqa: BLE001
+        ctx.fail("pack-of-the-changed-message-raises", f"{type(e).__name__}@{exc_site(e)}")
+    ctx.require(msgs.msg_eq(ctx, m4, m), "encoding-does-not-follow-a-change-of-the-message")
+    m.controls.pop()
     if shape.get("after_failure"):
         # pack() is a function of the message: an earlier pack() that failed half-way (a value of
         # the wrong type deep inside another message) must leave nothing behind
